@@ -93,11 +93,14 @@ pub const INNER: [&str; 4] = ["C02", "C03", "C04", "C14"];
 
 pub fn def(tier: Tier) -> PropertyDef {
 	let mut checks: Vec<Box<dyn SubCheck>> = Vec::new();
-	for f in WIDE {
+	// the quick tier uses four of the seven feature builds (u16, u64, f32, u16+unsafe); thorough all of them
+	let wide: Vec<&str> = if tier == Tier::Thorough { WIDE.to_vec() } else { vec!["period_type_u16", "period_type_u64"] };
+	let extra: Vec<&str> = if tier == Tier::Thorough { vec!["value_type_f32", "value_type_f32,unsafe_performance", "period_type_u16,unsafe_performance"] } else { vec!["value_type_f32", "period_type_u16,unsafe_performance"] };
+	for f in &wide {
 		checks.extend(diff_checks("C20", f, tier, 4));
 	}
 	checks.extend(diff_checks("C20", "period_type_u16,unsafe_performance", tier, 4));
-	for f in WIDE.iter().copied().chain(["value_type_f32", "value_type_f32,unsafe_performance", "period_type_u16,unsafe_performance"]) {
+	for f in wide.iter().copied().chain(extra) {
 		for inner in INNER {
 			checks.push(Box::new(Embedded { feature: f.to_string(), inner, tier }));
 		}
